@@ -150,8 +150,8 @@ type handler struct {
 	// syncs started by announce message. It protects the starting of new async
 	// goroutines and the counting of running async syncs.
 	asyncMutex sync.Mutex
-	// syncMutex serializes the handling of individual syncs. This should only
-	// guard the actual handling of a sync, nothing else.
+	// syncMutex serializes the individual syncs of this peer, from the choice
+	// of the head and the stop point to the recording of the latest sync.
 	syncMutex sync.Mutex
 	// peerID is the ID of the peer this handler is responsible for. This is
 	// the publisher of an advertisement chain.
@@ -428,6 +428,11 @@ func (s *Subscriber) SyncAdChain(ctx context.Context, peerInfo peer.AddrInfo, op
 
 	hnd := s.getOrCreateHandler(peerInfo.ID)
 
+	// Wait for any other sync of this publisher to finish before choosing the
+	// stop point and the head, so that they are current when this sync runs.
+	hnd.syncMutex.Lock()
+	defer hnd.syncMutex.Unlock()
+
 	syncer, updatePeerstore, err := hnd.makeSyncer(peerInfo, true)
 	if err != nil {
 		return cid.Undef, err
@@ -583,6 +588,9 @@ func (s *Subscriber) syncEntries(ctx context.Context, peerInfo peer.AddrInfo, en
 	}
 
 	hnd := s.getOrCreateHandler(peerInfo.ID)
+
+	hnd.syncMutex.Lock()
+	defer hnd.syncMutex.Unlock()
 
 	syncer, _, err := hnd.makeSyncer(peerInfo, false)
 	if err != nil {
@@ -889,6 +897,11 @@ func (h *handler) asyncSyncAdChain(ctx context.Context) {
 		return
 	}
 
+	// Wait for any other sync of this publisher to finish before taking the
+	// pending message and reading the latest sync to stop at.
+	h.syncMutex.Lock()
+	defer h.syncMutex.Unlock()
+
 	// Get the latest pending message.
 	amsg := h.pendingMsg.Swap(nil)
 	verifPoint("pending.taken", h.peerID, amsg.Cid)
@@ -1035,10 +1048,9 @@ func (h *handler) handle(ctx context.Context, nextCid cid.Cid, sel ipld.Node, sy
 		}
 	}
 
-	// Wait for any previous sync for this peer ID to finish. This is necessary
-	// to protect the scopedBlockHook map from having having another hook
-	// mapped to this peer ID.
-	h.syncMutex.Lock()
+	// The caller holds h.syncMutex, so any previous sync for this peer ID has
+	// finished. This is necessary to protect the scopedBlockHook map from
+	// having having another hook mapped to this peer ID.
 	h.subscriber.scopedBlockHookMutex.Lock()
 	h.subscriber.scopedBlockHook[h.peerID] = hook
 	h.subscriber.scopedBlockHookMutex.Unlock()
@@ -1048,7 +1060,6 @@ func (h *handler) handle(ctx context.Context, nextCid cid.Cid, sel ipld.Node, sy
 		h.subscriber.scopedBlockHookMutex.Lock()
 		delete(h.subscriber.scopedBlockHook, h.peerID)
 		h.subscriber.scopedBlockHookMutex.Unlock()
-		h.syncMutex.Unlock()
 	}()
 
 	var syncBySegment bool
